@@ -22,6 +22,7 @@ import os
 import random
 import re
 import sys
+import threading
 import time
 from concurrent.futures import ThreadPoolExecutor
 from typing import Any, Callable, Iterable
@@ -48,8 +49,17 @@ class MypyRun:
         self.result: Any = None
 
 
+_MYPY_LOCK = threading.RLock()   # mypy keeps global state: one in-process build at a time (per process)
+_ORIG: dict[str, Any] = {}       # the unmodified functions the discovery wrappers replace temporarily
+
+
 def run_mypy(text: str, pyver: tuple[int, int] = (3, 12), platform: str = "linux",
              keep_result: bool = False) -> MypyRun:
+    with _MYPY_LOCK:
+        return _run_mypy(text, pyver, platform, keep_result)
+
+
+def _run_mypy(text: str, pyver: tuple[int, int], platform: str, keep_result: bool) -> MypyRun:
     """One in-process build of module __main__ = text with the real typeshed.
 
     A crash (INTERNAL ERROR) is caught: report_internal_error() first prints the messages
@@ -113,7 +123,8 @@ def catch_call_crashes(store: dict[int, str]) -> Any:
     from mypy import checkexpr
     from mypy.types import AnyType, TypeOfAny
 
-    orig = checkexpr.ExpressionChecker.visit_call_expr
+    with _MYPY_LOCK:
+        orig = _ORIG.setdefault("visit_call_expr", checkexpr.ExpressionChecker.visit_call_expr)
 
     def wrapped(self: Any, e: Any, allow_none_return: bool = False) -> Any:
         try:
@@ -122,11 +133,12 @@ def catch_call_crashes(store: dict[int, str]) -> Any:
             store.setdefault(e.line, "%s: %s" % (type(exc).__name__, exc))
             return AnyType(TypeOfAny.from_error)
 
-    checkexpr.ExpressionChecker.visit_call_expr = wrapped  # type: ignore[method-assign]
-    try:
-        yield
-    finally:
-        checkexpr.ExpressionChecker.visit_call_expr = orig  # type: ignore[method-assign]
+    with _MYPY_LOCK:
+        checkexpr.ExpressionChecker.visit_call_expr = wrapped  # type: ignore[method-assign]
+        try:
+            yield
+        finally:
+            checkexpr.ExpressionChecker.visit_call_expr = orig  # type: ignore[method-assign]
 
 
 def run_cases_pristine(header: list[str], cases: list[str], **kw: Any) -> tuple[list[Any], int]:
@@ -203,18 +215,38 @@ def _init_worker(scratch_dir: str) -> None:
     _CACHE = None
 
 
+def pool_start() -> None:
+    """Fork all workers now (before any thread of the driver exists)."""
+    global _POOL
+    if _POOL is None:
+        from concurrent.futures import ProcessPoolExecutor
+        _POOL = ProcessPoolExecutor(NPROC, mp_context=mp.get_context("fork"), initializer=_init_worker, initargs=(_SCRATCH,))
+        _POOL.submit(int, 0).result()
+
+
+_VLOCK = threading.Lock()
+
+
+def report(v: Verdict, key: str, replay: Any, what: str) -> None:
+    with _VLOCK:
+        v.violation(key, replay, what)
+
+
 def pool_map(fn: Callable[[Any], Any], tasks: list[Any]) -> list[Any]:
     """Run self-contained tasks on the persistent worker pool (each worker keeps a warm mypy cache).
     A worker that dies (e.g. killed for memory) breaks the pool: machinery failure, never a hang."""
-    global _POOL
     if not tasks:
         return []
-    from concurrent.futures import ProcessPoolExecutor
     from concurrent.futures.process import BrokenProcessPool
-    if _POOL is None:
-        _POOL = ProcessPoolExecutor(NPROC, mp_context=mp.get_context("fork"), initializer=_init_worker, initargs=(_SCRATCH,))
+    pool_start()
     try:
-        return list(_POOL.map(fn, tasks))
+        res = []
+        t0 = time.time()
+        for i, r in enumerate(_POOL.map(fn, tasks)):
+            res.append(r)
+            if len(tasks) >= 40 and (i + 1) % (len(tasks) // 8) == 0:
+                print("  %s: %d/%d tasks, %ds" % (fn.__name__, i + 1, len(tasks), time.time() - t0), file=sys.stderr, flush=True)
+        return res
     except BrokenProcessPool as e:
         raise MachineryError("a worker process died while running %s: %s" % (fn.__name__, e))
 
@@ -226,21 +258,22 @@ _TLC_FUT: dict[tuple[str, str], Any] = {}
 def tlc_jobs(tier: str, seed: int) -> dict[tuple[str, str], dict[str, Any]]:
     """Every TLC run of this tier with its options (MC_* = invariants of the rule, Gen_* = emission)."""
     j: dict[tuple[str, str], dict[str, Any]] = {}
-    for tag in (["3x2"] if tier == "quick" else ["4x3"]) + ([os.environ["C12_ARGBIND_EXTRA"]] if os.environ.get("C12_ARGBIND_EXTRA") else []):
-        j[("MC_ArgBind", "MC_ArgBind_%s.cfg" % tag)] = dict(coverage=False, workers=4)
-        j[("MC_ArgBind", "Gen_ArgBind_%s.cfg" % tag)] = dict(workers=4, timeout=1800)
+    for tag, _, _ in ab_spaces(tier):
+        j[("MC_ArgBind", "MC_ArgBind_%s.cfg" % tag)] = dict(coverage=False, workers=4, timeout=3600)
+        j[("MC_ArgBind", "Gen_ArgBind_%s.cfg" % tag)] = dict(workers=4, timeout=3600)
     j[("MC_ArgBind", "Gen_ArgBind_4x4sim.cfg")] = dict(workers=2, simulate="num=%d" % (2 * ab_nsim(tier)), depth=5,
-                                                        seed=seed * 7919 + 11, coverage=False)
-    j[("MC_C3", "MC_C3_5.cfg")] = dict(workers=4)
-    j[("MC_C3", "Gen_C3_5.cfg")] = dict(workers=2, coverage=False)
+                                                        seed=seed * 7919 + 11, coverage=False, timeout=3600)
+    j[("MC_C3", "MC_C3_5.cfg")] = dict(workers=4, timeout=1800)
+    j[("MC_C3", "Gen_C3_5.cfg")] = dict(workers=2, coverage=False, timeout=1800)
     if tier != "quick":
-        j[("MC_C3", "MC_C3_6.cfg")] = dict(timeout=1500, workers=8)
-        j[("MC_C3", "Gen_C3_6sim.cfg")] = dict(workers=2, coverage=False, simulate="num=12000", depth=7, seed=seed * 7919 + 13)
-    j[("MC_Reach", "MC_Reach.cfg")] = dict(coverage=False, workers=4)
-    j[("MC_Reach", "Gen_Reach.cfg")] = dict(workers=4)
+        j[("MC_C3", "MC_C3_6.cfg")] = dict(timeout=3600, workers=8)
+        j[("MC_C3", "Gen_C3_6sim.cfg")] = dict(workers=2, coverage=False, simulate="num=12000", depth=7, seed=seed * 7919 + 13,
+                                               timeout=3600)
+    j[("MC_Reach", "MC_Reach.cfg")] = dict(coverage=False, workers=4, timeout=1800)
+    j[("MC_Reach", "Gen_Reach.cfg")] = dict(workers=4, timeout=1800)
     for layer in (["L1", "L2q", "L3q"] if tier == "quick" else ["L1", "L2t", "L3t"]):
-        j[("MC_Fold", "MC_Fold_%s.cfg" % layer)] = dict(workers=4)
-        j[("MC_Fold", "Gen_Fold_%s.cfg" % layer)] = dict(workers=2, coverage=False, timeout=1800)
+        j[("MC_Fold", "MC_Fold_%s.cfg" % layer)] = dict(workers=4, timeout=1800)
+        j[("MC_Fold", "Gen_Fold_%s.cfg" % layer)] = dict(workers=2, coverage=False, timeout=3600)
     return j
 
 
@@ -271,7 +304,16 @@ def tlc_checked(module: str, cfg: str) -> Any:
 
 
 def ab_nsim(tier: str) -> int:
-    return int(os.environ.get("C12_ARGBIND_NSIM", "0")) or (25 if tier == "quick" else 1500)
+    return int(os.environ.get("C12_ARGBIND_NSIM", "0")) or (25 if tier == "quick" else 400)
+
+
+def ab_spaces(tier: str) -> list[tuple[str, int, int]]:
+    """Completely enumerated (parameters x actuals) spaces of the tier."""
+    spaces = [("3x2", 3, 2)] if tier == "quick" else [("3x3", 3, 3), ("4x2", 4, 2)]
+    extra = os.environ.get("C12_ARGBIND_EXTRA")  # development: e.g. "4x3" = also enumerate that space completely
+    if extra:
+        spaces.append((extra, int(extra[0]), int(extra[2])))
+    return spaces
 
 
 # =========================================================================== 1-minimal failing inputs
@@ -298,24 +340,26 @@ def minimise(items: list[tuple[Any, str]], reductions: Callable[[Any], list[list
         stepped: dict[Any, Any] = {}
         depth = max((len(g) for g in groups.values()), default=0)
         for level in range(depth):
-            todo: dict[Any, Any] = {}
-            for cid, g in groups.items():
-                if cid in stepped or level >= len(g):
-                    continue
-                for c in g[level]:
-                    k = ident(c)
-                    if k not in memo:
-                        todo[k] = c
-            if todo:
-                ks = list(todo)
-                for k, kind in zip(ks, kind_batch([todo[k] for k in ks])):
-                    memo[k] = kind
-            for cid, g in groups.items():
-                if cid in stepped or level >= len(g):
-                    continue
-                hit = next((c for c in g[level] if memo[ident(c)] == cur[cid]["kind"]), None)
-                if hit is not None:
-                    stepped[cid] = hit
+            # candidate by candidate: only inputs whose earlier candidates did not keep the failure
+            # pay for evaluating the next one
+            width = max((len(g[level]) for g in groups.values() if level < len(g)), default=0)
+            for k in range(width):
+                todo: dict[Any, Any] = {}
+                for cid, g in groups.items():
+                    if cid in stepped or level >= len(g) or k >= len(g[level]):
+                        continue
+                    key = ident(g[level][k])
+                    if key not in memo:
+                        todo[key] = g[level][k]
+                if todo:
+                    ks = list(todo)
+                    for key, kind in zip(ks, kind_batch([todo[key] for key in ks])):
+                        memo[key] = kind
+                for cid, g in groups.items():
+                    if cid in stepped or level >= len(g) or k >= len(g[level]):
+                        continue
+                    if memo[ident(g[level][k])] == cur[cid]["kind"]:
+                        stepped[cid] = g[level][k]
         nxt: dict[Any, dict[str, Any]] = {}
         for cid, e in cur.items():
             if cid in stepped:
@@ -520,7 +564,8 @@ def ab_wellformed_call(call: list[Any]) -> bool:
 def ab_reductions(x: tuple[Any, Any]) -> list[list[Any]]:
     """One-step simplifications of an input, most wanted first:
        0 remove an actual / a TypedDict key / a *tuple item;  1 remove a parameter (later names shift,
-       its own name becomes the unknown name);  2 give a parameter a default;  3 rename a name the
+       its own name becomes the unknown name), or the first positional parameter together with the first
+       positional value;  2 give a parameter a default;  3 rename a name the
        call uses to the unknown name `z`;  4 bring two adjacent actuals into the order
        positional, *tuple, keyword, **mapping."""
     sig, call = x
@@ -541,6 +586,20 @@ def ab_reductions(x: tuple[Any, Any]) -> list[list[Any]]:
         c2 = ab_rename(call, ren)
         if c2 is not None:
             g1.append((sig[:j] + sig[j + 1:], c2))
+    if sig and sig[0]["k"] in ("PO", "PK"):
+        # the first positional parameter together with the value it receives
+        ren = {NAMES[0]: "z"}
+        for k in range(1, len(sig)):
+            ren[NAMES[k]] = NAMES[k - 1]
+        for i, a in enumerate(call):
+            if a["k"] == "P" or (a["k"] == "S" and a["l"] > 0):
+                rest = call[:i] + ([] if a["k"] == "P" else [dict(a, l=a["l"] - 1)]) + call[i + 1:]
+                c2 = ab_rename(rest, ren)
+                if c2 is not None:
+                    g1.append((sig[1:], c2))
+                break
+            if a["k"] != "S":
+                break
     g2: list[Any] = []
     for j, p in enumerate(sig):
         if p["k"] in ("PO", "PK", "KO") and not p["d"]:
@@ -650,10 +709,7 @@ def ab_space(tag: str, np_: int, na: int, g: Any, failing: list[Any], cov: dict[
 
 
 def check_argbind(v: Verdict, tier: str, rnd: random.Random, cov: dict[str, Any]) -> dict[str, int]:
-    spaces = [("3x2", 3, 2)] if tier == "quick" else [("4x3", 4, 3)]
-    extra = os.environ.get("C12_ARGBIND_EXTRA")  # development: e.g. "3x4" = also enumerate that space completely
-    if extra:
-        spaces.append((extra, int(extra[0]), int(extra[2])))
+    spaces = ab_spaces(tier)
     states = transitions = pairs = 0
     failing: list[Any] = []
     tables = []
@@ -711,7 +767,7 @@ def check_argbind(v: Verdict, tier: str, rnd: random.Random, cov: dict[str, Any]
         if again != m["kind"]:
             raise MachineryError("failure not reproducible: %s, first %s then %s" % (ab_key(m["kind"], sig, call), m["kind"], again))
         key = ab_key(m["kind"], sig, call)
-        v.violation(key, {"part": "argbind", "module": ab_header() + [sig_text(sig), call_text(call)],
+        report(v, key, {"part": "argbind", "module": ab_header() + [sig_text(sig), call_text(call)],
                           "kind": m["kind"], "cpython": cpy[0] or "binds", "mypy": my[0],
                           "explains_failing_inputs": m["count"],
                           "example_non_minimal": [sig_text(m["example"][0]), call_text(m["example"][1])]},
@@ -853,7 +909,6 @@ def c3_kind_task(xs: list[Any]) -> list[str | None]:
 
 
 def check_c3(v: Verdict, tier: str, rnd: random.Random, cov: dict[str, Any]) -> dict[str, int]:
-    sany(os.path.join(SPEC, "MC_C3.tla"))
     n = 5
     r = tlc_checked("MC_C3", "MC_C3_%d.cfg" % n)
     if r.never_fired():
@@ -898,7 +953,7 @@ def check_c3(v: Verdict, tier: str, rnd: random.Random, cov: dict[str, Any]) -> 
         cp, my, _ = c3_eval([st], pristine=True)
         if c3_kind(cp[0], my[0]) != m["kind"]:
             raise MachineryError("C3 failure not reproducible: %s" % c3_text(st))
-        v.violation("c3:%s:%s" % (m["kind"], c3_text(st)),
+        report(v, "c3:%s:%s" % (m["kind"], c3_text(st)),
                     {"part": "c3", "hierarchy": c3_text(st), "cpython": cp[0], "mypy": my[0], "explains": m["count"]},
                     "%s for `%s`: CPython %s, mypy %s" % (m["kind"], c3_text(st),
                                                          "cannot create the class" if cp[0] == "fail" else "__mro__ = %s" % cp[0], my[0]))
@@ -1086,7 +1141,6 @@ def r_class(c: dict[str, Any], minor: int, micro: int) -> str:
 
 
 def check_reach(v: Verdict, tier: str, rnd: random.Random, cov: dict[str, Any]) -> dict[str, int]:
-    sany(os.path.join(SPEC, "MC_Reach.tla"))
     r = tlc_checked("MC_Reach", "MC_Reach.cfg")
     g = tlc_checked("MC_Reach", "Gen_Reach.cfg")
     if g.never_fired():
@@ -1153,7 +1207,7 @@ def check_reach(v: Verdict, tier: str, rnd: random.Random, cov: dict[str, Any]) 
         if key in seen_keys:
             continue
         seen_keys[key] = 1
-        v.violation(key, {"part": "reach", "condition": r_text(c), "python_version": "3.%d" % minor, "platform": plat,
+        report(v, key, {"part": "reach", "condition": r_text(c), "python_version": "3.%d" % minor, "platform": plat,
                           "runtime_version_info": [3, minor, micro, "final", 0], "mypy_static_value": my, "runtime_value": rt},
                     "`%s` with --python-version 3.%d: mypy takes it as always %s, at run time on 3.%d.%d it is %s"
                     % (r_text(c), minor, {"T": "true", "F": "false"}[my], minor, micro,
@@ -1234,8 +1288,8 @@ def f_guarded(e: dict[str, Any]) -> Any:
         raise _Excluded
     if op == "*":
         for s_, n in ((a, b), (b, a)):
-            if isinstance(s_, (str, bytes)) and isinstance(n, int) and len(s_) and 10000 < n and len(s_) * n < 2**62:
-                raise _Excluded
+            if isinstance(s_, (str, bytes)) and isinstance(n, int) and len(s_) and 10000 < n and len(s_) * n < 2**63:
+                raise _Excluded       # would be attempted (and end in MemoryError at best); beyond that CPython refuses at once
     fn = {"+": operator.add, "-": operator.sub, "*": operator.mul, "/": operator.truediv, "//": operator.floordiv,
           "%": operator.mod, "&": operator.and_, "|": operator.or_, "^": operator.xor, "<<": operator.lshift,
           ">>": operator.rshift, "**": operator.pow}[op]
@@ -1272,7 +1326,8 @@ def catch_fold_crashes(store: dict[int, str]) -> Any:
     """Discovery aid, like catch_call_crashes: an exception escaping mypy's constant_fold_expr in
     semantic analysis is recorded for the line, and analysis goes on."""
     from mypy import semanal
-    orig = semanal.constant_fold_expr
+    with _MYPY_LOCK:
+        orig = _ORIG.setdefault("constant_fold_expr", semanal.constant_fold_expr)
 
     def wrapped(expr: Any, cur_mod_id: str) -> Any:
         try:
@@ -1281,11 +1336,12 @@ def catch_fold_crashes(store: dict[int, str]) -> Any:
             store.setdefault(expr.line, "%s: %s" % (type(exc).__name__, exc))
             return None
 
-    semanal.constant_fold_expr = wrapped  # type: ignore[assignment]
-    try:
-        yield
-    finally:
-        semanal.constant_fold_expr = orig  # type: ignore[assignment]
+    with _MYPY_LOCK:
+        semanal.constant_fold_expr = wrapped  # type: ignore[assignment]
+        try:
+            yield
+        finally:
+            semanal.constant_fold_expr = orig  # type: ignore[assignment]
 
 
 def f_build(lines: list[str]) -> tuple[Any, dict[int, str]]:
@@ -1426,7 +1482,7 @@ def f_token_for(value: Any) -> str | None:
 
 def f_reductions(e: dict[str, Any]) -> list[list[Any]]:
     """One-step simplifications: 0 a direct subexpression instead of the whole;  1 a proper subexpression
-    replaced by the operand token that has its run-time value;  2 an operand token replaced by a simpler
+    replaced by an operand token of its run-time type (the one of equal value first);  2 an operand token replaced by a simpler
     one of the same run-time type;  3 an operator replaced by an earlier one of +,-,*,/,//,%,**,&,|,^,<<,>>."""
     g0: list[Any] = []
     if e["k"] == "un":
@@ -1446,13 +1502,14 @@ def f_reductions(e: dict[str, Any]) -> list[list[Any]]:
         if x["k"] == "leaf":
             return []
         cp = f_cpython(x)
-        if cp[0] != "val":
+        if cp[0] != "val" or cp[1] not in F_SIMPLER:
             return []
         try:
-            t = f_token_for(eval(f_text(x), dict(F_NS)))
+            same = f_token_for(eval(f_text(x), dict(F_NS)))
         except Exception:  # noqa: BLE001
             return []
-        return [{"k": "leaf", "t": t}] if t else []
+        toks = ([same] if same else []) + [t for t in F_SIMPLER[cp[1]] if t != same]
+        return [{"k": "leaf", "t": t} for t in toks]
 
     def simpler_leaf(x: dict[str, Any]) -> list[Any]:
         lst = F_SIMPLER[F_TYPE_OF[x["t"]]]
@@ -1484,7 +1541,6 @@ def f_kind_task(xs: list[Any]) -> list[str | None]:
 
 
 def check_fold(v: Verdict, tier: str, rnd: random.Random, cov: dict[str, Any]) -> dict[str, int]:
-    sany(os.path.join(SPEC, "MC_Fold.tla"))
     layers = ["L1", "L2q", "L3q"] if tier == "quick" else ["L1", "L2t", "L3t"]
     states = transitions = 0
     items: dict[str, tuple[Any, Any, bool]] = {}
@@ -1541,7 +1597,7 @@ def check_fold(v: Verdict, tier: str, rnd: random.Random, cov: dict[str, Any]) -
         engs = sorted(eng for eng, r_ in my[0].items() if f_kind(cp, r_) == m["kind"])
         if not engs:
             raise MachineryError("Fold failure not reproducible: %s %s" % (m["kind"], f_text(e)))
-        v.violation("fold:%s:%s" % (m["kind"], f_text(e, pretty=True)),
+        report(v, "fold:%s:%s" % (m["kind"], f_text(e, pretty=True)),
                     {"part": "fold", "expression": f_text(e), "module": F_HEADER + ["X: Final[object] = " + f_text(e)],
                      "cpython": cp, "engines": {k: list(x) for k, x in my[0].items()}, "failing_engines": engs,
                      "explains": m["count"]},
@@ -1605,28 +1661,51 @@ def main(argv: list[str]) -> int:
     rnd = random.Random(seed)
     cov: dict[str, Any] = {}
     only = [p for p in os.environ.get("C12_ONLY", "").split(",") if p] or PARTS
-    for m in ("MC_ArgBind", "MC_C3", "MC_Reach", "MC_Fold"):
-        sany(os.path.join(SPEC, m + ".tla"))
+    pool_start()
+    mods = {"argbind": "MC_ArgBind", "c3": "MC_C3", "reach": "MC_Reach", "fold": "MC_Fold"}
+    with ThreadPoolExecutor(4) as ex:
+        list(ex.map(lambda part: sany(os.path.join(SPEC, mods[part] + ".tla")), only))
     tlc_prefetch(tier, seed, [p for p in PARTS if p in only])
+
     # specification-level mutants: the rule-level invariants must reject a wrong rule (non-vacuity)
-    spec_mut = {}
-    for mod, cfg, inv, part in (("MC_Fold", "Mut_Fold_TruncDiv.cfg", "DivModLaw", "fold"),
-                                ("MC_C3", "Mut_C3_NoBaseList.cfg", "LocalPrecedence", "c3"),
-                                ("MC_Reach", "Mut_Reach_TwoTuple.cfg", "WholeNeverEqualsShort", "reach")):
-        if part in only:
-            rm = tlc(mod, cfg, coverage=False, workers=2)
-            spec_mut[cfg] = rm.violated
-            if rm.violated != inv:
-                raise MachineryError("specification mutant %s not rejected as expected: %s %s" % (cfg, rm.violated, rm.error))
-    cov["spec_mutants_rejected"] = spec_mut
+    def spec_mutants() -> dict[str, Any]:
+        res = {}
+        for mod, cfg, inv, part in (("MC_Fold", "Mut_Fold_TruncDiv.cfg", "DivModLaw", "fold"),
+                                    ("MC_C3", "Mut_C3_NoBaseList.cfg", "LocalPrecedence", "c3"),
+                                    ("MC_Reach", "Mut_Reach_TwoTuple.cfg", "WholeNeverEqualsShort", "reach")):
+            if part in only:
+                rm = tlc(mod, cfg, coverage=False, workers=2)
+                res[cfg] = rm.violated
+                if rm.violated != inv:
+                    raise MachineryError("specification mutant %s not rejected as expected: %s %s" % (cfg, rm.violated, rm.error))
+        return res
+
     checks = {"argbind": check_argbind, "c3": check_c3, "reach": check_reach, "fold": check_fold}
     totals: dict[str, dict[str, int]] = {}
-    for part in PARTS:
-        if part in only:
-            t0 = time.time()
-            totals[part] = checks[part](v, tier, rnd, cov)
-            totals[part]["wall_s"] = int(time.time() - t0)
-            print("%s: %s" % (part, json.dumps(totals[part])), flush=True)
+
+    def run_part(part: str) -> None:
+        t0 = time.time()
+        totals[part] = checks[part](v, tier, rnd, cov)
+        totals[part]["wall_s"] = int(time.time() - t0)
+        print("%s: %s" % (part, json.dumps(totals[part])), flush=True)
+
+    # the parts run side by side: the serial work of one (parsing TLC's output, minimisation) overlaps
+    # the pool work of the others; all share the worker pool
+    with ThreadPoolExecutor(5) as ex:
+        fm = ex.submit(spec_mutants)
+        futs = [ex.submit(run_part, part) for part in PARTS if part in only]
+        errs = []
+        for f in futs + [fm]:
+            try:
+                f.result()
+            except MachineryError as e:
+                errs.append(e)
+            except BaseException as e:  # noqa: BLE001  (e.g. a SystemExit escaping from mypy)
+                errs.append(MachineryError("internal error of the driver: %r" % (e,)))
+        if errs:
+            raise errs[0]
+        cov["spec_mutants_rejected"] = fm.result()
+    totals = {p: totals[p] for p in PARTS if p in totals}
     replayed = sum(t["replayed"] for t in totals.values())
     if replayed == 0 or any(t["replayed"] == 0 for t in totals.values()):
         raise MachineryError("conformance step did not run: %r" % totals)
